@@ -954,6 +954,7 @@ type ServerCfg struct {
 	ECDHECurve, ECDHEWireCurve uint16
 	ECDHEPoint                 []byte
 	SKXRSA                     *RSAKey // sign the ECDHE parameters with this key instead of Sign.RSA
+	SKXSigAlg                  uint16  // name this SignatureAndHashAlgorithm in the ECDHE ServerKeyExchange (the signature itself stays RSA PKCS#1 v1.5 / SHA-256)
 	// session tickets (RFC 5077), reference-server side: IssueTicket is sent in a
 	// NewSessionTicket message when the client offered the extension; Resume, when
 	// the client offers exactly Resume.Ticket, makes the server do the abbreviated
@@ -1135,7 +1136,11 @@ func ServerHandshake(c *Conn, cfg *ServerCfg) (*Result, error) {
 					return res, errors.New("reftls server: no RSA key to sign the ECDHE parameters")
 				}
 				res.SKXSig = RSASignSHA256(key, signed)
-				body = MarshalSKXECDHE(wireCurve, point, SigRSAPKCS1SHA256, res.SKXSig)
+				alg := uint16(SigRSAPKCS1SHA256)
+				if cfg.SKXSigAlg != 0 {
+					alg = cfg.SKXSigAlg
+				}
+				body = MarshalSKXECDHE(wireCurve, point, alg, res.SKXSig)
 			}
 			if err := c.WriteHandshake(HsServerKeyExchange, body); err != nil {
 				return res, err
